@@ -106,6 +106,18 @@ class C04(PropertyCheck):
                                      ("wi32", [str(a), str(v - (1 << 32) if v >= (1 << 31) else v)]), ("ru32", [str(a)]),
                                      ("wu8", [str(a), str(v & 0xFF)]), ("ri8", [str(a)])]
                     cases.append(Case(pyarchive.render_case(e, 1, ops), "values"))
+        # a value written over a cell that already holds a value which COMPARES equal but has other bits (+0.0 / -0.0), or
+        # unequal although the bits agree (NaN): the bytes after the write are the new value's bytes (seeded change C04-10: the
+        # stream writer skipped a write when `read_f32(pos) == value`)
+        special = [0x00000000, 0x80000000, 0x7FC00000, 0xFFC00000, 0x7FC00001, 0x3F800000, 0xBF800000, 0x00000001, 0xFFFFFFFF]
+        for e in "LB":
+            for u in special:
+                for v in special:
+                    ops = base(8) + [("wf32", ["0", str(u)]), ("wf32", ["0", str(v)]), ("ru32", ["0"]),
+                                     ("Wseek", ["4"]), ("Wwf32", [str(u)]), ("Wseek", ["4"]), ("Wwf32", [str(v)]), ("ru32", ["4"]), ("rf32", ["4"]),
+                                     ("wu32", ["0", str(u)]), ("Wseek", ["0"]), ("Wwf32", [str(v)]), ("ru32", ["0"]),
+                                     ("fresh", []), ("Wseek", ["4"]), ("Wwu32", [str(u)]), ("Wseek", ["4"]), ("Wwu32", [str(v)]), ("ru32", ["4"])]
+                    cases.append(Case(pyarchive.render_case(e, 1, ops), "value-over-value"))
         # ONE reader / ONE writer object serving a whole run of stream operations (harness/src/k_ba.rs; `fresh` ends the run): anything
         # a long-lived object remembers about the archive must not change its answers (seeded changes C04-7: cached size in the
         # writer, C04-8: cached label bucket in the reader).  Every history also with `fresh` between the steps.
